@@ -51,3 +51,60 @@ package vararray
 //@   loop 0 invariant shifted: writeIdx < readIdx ==> (exists j :: start <= j && j < readIdx && old(src[j]) == 92)
 //@   loop 0 invariant nodelim: writeIdx == readIdx ==> (forall j :: idx <= j && j < readIdx ==> old(src[j]) != 124)
 //@   loop 0 decreases len(src) - readIdx
+//
+//@ section C11 C01 C08
+//
+// ---- escaped, delimiter-terminated array elements / entity values (same codec as pkg/pb/v1 marshalEntityValue) ----
+// 124 is the field delimiter '|', 92 the escape byte '\\'.
+//@ spec func special(b byte) bool = b == 124 || b == 92
+//@ spec func appendShape(r []byte, d []byte) bool = (sameobj(r, d) && off(r) == off(d) && cap(r) == cap(d)) || fresh(r)
+//
+// escLen(src, k): the number of bytes the first k bytes of src occupy once escaped - the position map between a value and
+// its encoding (byte k of src is written at offset escLen(src, k) of the field, after an escape byte when it is special).
+//@ spec func rec escLen(src []byte, k int) int = ite(k <= 0, 0, escLen(src, k-1) + ite(special(src[k-1]), 2, 1))
+//
+//@ lemma escLenBounds(src []byte, k int)
+//@   mode int
+//@   induction k
+//@   requires 0 <= k && k <= len(src)
+//@   ensures  k <= escLen(src, k) && escLen(src, k) <= 2*k
+//@ lemma escLenPlain(src []byte, k int)
+//@   mode int
+//@   induction k
+//@   requires 0 <= k && k <= len(src) && (forall j :: 0 <= j && j < k ==> !special(src[j]))
+//@   ensures  escLen(src, k) == k
+//@ lemma escLenStep(src []byte, k int)
+//@   mode int
+//@   requires 0 <= k && k < len(src)
+//@   ensures  escLen(src, k+1) == escLen(src, k) + ite(special(src[k]), 2, 1)
+//
+// MarshalVarArray appends exactly one field: every byte of src in order, each '|' or '\\' preceded by one escape byte,
+// then one unescaped delimiter. The already written part of dest is not touched. (nil and empty both give a bare '|':
+// "an empty string or byte value reads back as null".)
+//@ func MarshalVarArray
+//@   mode int
+//@   requires !sameobj(dest, src)
+//@   modifies dest[len(dest):cap(dest)]
+//@   uses escLenPlain
+//@   opt split-returns
+//@   ensures  shape:  appendShape(result, dest)
+//@   ensures  prefix: result[:len(dest)] == old(dest[:])
+//@   ensures  length: len(result) == len(dest) + escLen(src, len(src)) + 1
+//@   ensures  terminator: result[len(result)-1] == 124
+//@   ensures  body: forall k :: 0 <= k && k < len(src) ==> ite(special(src[k]), result[len(dest)+escLen(src, k)] == 92 && result[len(dest)+escLen(src, k)+1] == src[k], result[len(dest)+escLen(src, k)] == src[k])
+//@   ensures  field: encAt(result[len(dest):], src)
+//@   loop 0 invariant appendShape(dest, old(dest)) && len(dest) == old(len(dest)) + escLen(src, range_i)
+//@   loop 0 invariant dest[:old(len(dest))] == old(dest[:])
+//@   loop 0 invariant forall k :: 0 <= k && k < range_i ==> escLen(src, k) < escLen(src, k+1) && escLen(src, k+1) <= escLen(src, range_i)
+//@   loop 0 invariant forall k :: 0 <= k && k < range_i ==> ite(special(src[k]), dest[old(len(dest))+escLen(src, k)] == 92 && dest[old(len(dest))+escLen(src, k)+1] == src[k], dest[old(len(dest))+escLen(src, k)] == src[k])
+//
+// encAt(src, v): src starts with the field that MarshalVarArray writes for v (its "body" and "terminator" clauses).
+//@ spec func encAt(src []byte, v []byte) bool = len(src) >= escLen(v, len(v)) + 1 && src[escLen(v, len(v))] == 124 &&
+//@     (forall k :: 0 <= k && k < len(v) ==> ite(special(v[k]), src[escLen(v, k)] == 92 && src[escLen(v, k)+1] == v[k], src[escLen(v, k)] == v[k]))
+//
+//@ lemma escLenMono(src []byte, j int, k int)
+//@   mode int
+//@   induction k
+//@   requires 0 <= j && j <= k && k <= len(src)
+//@   ensures  escLen(src, j) <= escLen(src, k)
+//
